@@ -347,12 +347,21 @@ def r4(ctx):
     stubs_t["_logging:isEnabledForTrace"] = lambda I, run, a, k, n: TRUE
     stubs_t["_logging:trace"] = lambda I, run, a, k, n: NONE
     It = Interp(ctx.index, Config(stubs=stubs_t))
-    for variant, Ie in (("default", Ie), ("custom", Ie), ("default+trace", It), ("custom+trace", It)):
+    for variant, Ie in (("default", Ie), ("custom", Ie), ("default+trace", It), ("custom+trace", It),
+                        ("default:send_frame", Ie), ("custom:send_frame", Ie), ("custom:set_mask_key", Ie), ("custom:ping", Ie)):
         def body(run, variant=variant, Ie=Ie):
             kw = {}
-            if variant.startswith("custom"):
+            if variant.startswith("custom") and "set_mask_key" not in variant:
                 kw["get_mask_key"] = Sym("custom_key", "func")
             ws = mk_websocket(Ie, run, **kw)
+            if "set_mask_key" in variant:
+                Ie.call(run, Ie.getattr(run, ws, "set_mask_key", None), [Sym("custom_key", "func")], {}, None)
+            if variant.endswith(":send_frame"):
+                # a frame the caller built (a fragment): the connection's key source applies to it as well
+                fr = Ie.call(run, Ie.make_fn(run, "_abnf:ABNF.create_frame"), [Sym("payload", "bytes"), C(0), C(0)], {}, None)
+                return Ie.call(run, Ie.getattr(run, ws, "send_frame", None), [fr], {}, None)
+            if variant.endswith(":ping"):
+                return Ie.call(run, Ie.getattr(run, ws, "ping", None), [Sym("payload", "bytes")], {}, None)
             return Ie.call(run, Ie.getattr(run, ws, "send", None), [Sym("payload", "bytes"), C(2)], {}, None)
         for o in ctx.count_paths(Ie.explore(body)):
             if o.kind == "cutoff" or (o.kind == "raise" and o.exc_class == "builtins.ValueError"):
@@ -464,18 +473,19 @@ _LOGGISH = ("trace", "debug", "error", "warning", "info", "dump", "__str__", "re
 
 
 def _observable(I, o, roots):
-    """What a caller / the peer can see of a path: result, non-logging effects in order, final fields of the objects involved."""
-    effs = tuple((e.name, tuple(repr(I.resolve(o.run, a)) for a in e.args)) for e in o.effects
+    """What a caller / the peer can see of a path: result, non-logging effects in order, final fields of the objects involved.
+    Terms are taken as stored (not narrowed by the path's facts), so a branch that merely looks at a value does not count as a difference."""
+    effs = tuple((e.name, tuple(repr(a) for a in e.args)) for e in o.effects
                  if not any(w in e.name for w in _LOGGISH) and not e.name.startswith("with."))
-    val = repr(I.resolve(o.run, o.value)) if o.value is not None else None
+    val = repr(o.value) if o.value is not None else None
     heap = []
     for r in roots(o):
         if isinstance(r, Ref):
             c = o.run.cell(r)
             for k in sorted(getattr(c, "fields", {})):
                 v = c.fields[k]
-                heap.append((k, repr(I.resolve(o.run, v)) if not isinstance(v, Ref) else "@"))
-    return (o.kind, o.exc_class, val, effs, tuple(heap))
+                heap.append((k, repr(v) if not isinstance(v, Ref) else "@"))
+    return (o.kind, o.exc_class, val if o.kind != "raise" else None, effs, tuple(heap))
 
 
 @rule("R-C01-8", min_instances=2, title="tracing is pure: with trace logging on, send_frame and recv_data_frame have the same results, writes and state as with it off")
@@ -486,7 +496,6 @@ def r8(ctx):
     def world(trace_on):
         stubs = dict(BASE_STUBS)
         stubs["_abnf:ABNF.format"] = lambda I, run, a, k, n: (run.effect("format", (), node=n), Sym("wire", "bytes"))[1]
-        stubs["_abnf:ABNF.__str__"] = lambda I, run, a, k, n: Sym("frame_text", "str")
         stubs["_logging:trace"] = lambda I, run, a, k, n: (run.effect("trace", a, node=n), NONE)[1]
         stubs["_logging:isEnabledForTrace"] = lambda I, run, a, k, n: TRUE if trace_on else FALSE
 
@@ -509,7 +518,10 @@ def r8(ctx):
         stubs["_abnf:continuous_frame.add"] = lambda I, run, a, k, n: (run.effect("cont.add", a[1:], node=n), NONE)[1]
         stubs["_abnf:continuous_frame.is_fire"] = lambda I, run, a, k, n: Sym("fire", "bool")
         stubs["_abnf:continuous_frame.extract"] = lambda I, run, a, k, n: Tup((Sym("xop", "int"), a[1]))
-        cfg = Config(stubs=stubs, loop_unroll=2, single_iteration={f"{W}.recv_data_frame"})
+        # the text rendering of a frame (ABNF.__str__) and everything else under the trace flag is interpreted, with
+        # peer-controlled bytes: a strict decode there can fail
+        from .c17 import hostile
+        cfg = Config(stubs=stubs, loop_unroll=2, single_iteration={f"{W}.recv_data_frame"}, may_raise=hostile())
         return Interp(idx, cfg)
 
     def send_body(I):
@@ -517,7 +529,8 @@ def r8(ctx):
             ws = mk_websocket(I, run)
             run.memo["@ws"] = ws
             run.assume_range(App("len", (Sym("wire", "bytes"),), "int"), 2, INF)
-            fr = new_obj(run, "_abnf:ABNF", "frame", get_mask_key=Ext("os.urandom"))
+            fr = new_obj(run, "_abnf:ABNF", "frame", get_mask_key=Ext("os.urandom"), fin=isym(run, "fin", 0, 1), opcode=isym(run, "opcode", 0, 15),
+                         rsv1=C(0), rsv2=C(0), rsv3=C(0), mask_value=C(1), data=Sym("payload", "bytes"))
             run.memo["@fr"] = fr
             return I.call(run, I.getattr(run, ws, "send_frame", None), [fr], {}, None)
         return body
@@ -571,7 +584,8 @@ def r9(ctx):
     q = "_abnf:ABNF.mask"
     loc = idx.loc(idx.func(q).node)
     key = bytes([0x37, 0xFA, 0x21, 0x3D])
-    for n in list(range(0, 24)) + [125, 126, 127, 255, 256, 1000]:
+    # ... and the 16/64-bit boundary region, where a block-wise implementation would change phase
+    for n in list(range(0, 24)) + [125, 126, 127, 255, 256, 1000, 65535, 65536, 65537, 70001, 131071, 196607]:
         data = bytes((i * 37 + 11) % 256 for i in range(n))
         want = bytes(b ^ key[i % 4] for i, b in enumerate(data))
         forms = [("bytes", C(key), C(data))]
@@ -586,3 +600,10 @@ def r9(ctx):
             ctx.ob(f"{q}:len={n}:{form}", got == want, "equals cyclic XOR" if got == want else
                    f"masking {n} bytes ({form}) gives {got!r:.80}, cyclic XOR with the 4-byte key gives {want!r:.80}", loc)
     # unmasking = masking (involution) is what the receive path relies on: same function, checked by R-C02-2 (xor term)
+
+
+@rule("R-C01-10", min_instances=1, title="the low-level send performs exactly one accepted transport write and returns its count on every path (would-block retry included), so send_frame's short-write loop neither skips nor repeats bytes")
+def r10(ctx):
+    from .c12 import r6 as one_write_per_send
+    one_write_per_send(ctx)
+
